@@ -90,6 +90,7 @@ pub fn replay(prop: &'static str, path: &str) -> i32 {
 pub fn child_main(args: &[String]) -> i32 {
     match args.get(0).map(|s| s.as_str()) {
         Some("parse") => c14::child(args),
+        Some("parsebatch") => c14::child_batch(args),
         Some("seeds") => c18::child(args),
         Some("tz") => c09::child(args),
         Some("follow") => c10::child(args),
